@@ -52,7 +52,7 @@ properties! {
 
 /// Committed regression cases (/verif/corpus/regress/<id>/*.json), run first in every tier.
 pub fn run_regressions(ctx: &mut Ctx, id: &str) {
-    let dir = std::path::Path::new(VERIF_ROOT).join("corpus/regress").join(id);
+    let dir = verif_root().join("corpus/regress").join(id);
     let mut files: Vec<_> = match std::fs::read_dir(&dir) {
         Ok(rd) => rd.filter_map(|e| e.ok().map(|e| e.path())).filter(|p| p.extension().map_or(false, |e| e == "json")).collect(),
         Err(_) => return,
